@@ -320,6 +320,93 @@ Definition matmul_csr_dense (l : csr) (r : dense) (scale : C) (out : option dens
                          (fun j => den_dense r j k)
                          (match out with Some o => den_dense o i k | None => c0 end)) |}.
 
+(* ------------------------------------------------------ inner / expect *)
+(* the CSR kernels read a ket through `data[row_index[j]]` when row j is not
+   empty: the first stored entry of the row *)
+Definition ket_at (rows : list crow) (j : nat) : option C :=
+  match nth j rows [] with [] => None | p :: _ => Some (snd p) end.
+(* sum += op.data[ptr] * state.data[row_index[col]] over one operator row *)
+Definition rowdot (rows_s : list crow) (op_row : crow) : C :=
+  fold_left (fun sum p => match ket_at rows_s (fst p) with
+                          | Some sv => cadd sum (cmul (snd p) sv) | None => sum end) op_row c0.
+Definition head_data (m : csr) : option C :=
+  match concat (s_rows m) with [] => None | p :: _ => Some (snd p) end.
+
+(* inner.pyx::_check_shape_inner (43afb17) + inner_csr *)
+Definition inner_csr (l r : csr) (scalar_is_ket : bool) : option C :=
+  if (negb (s_nr l =? 1) && negb (s_nc l =? 1)) || negb (s_nc r =? 1)
+     || negb (s_nr l * s_nc l =? s_nr r) then None
+  else if (s_nr l =? 1) && (s_nc l =? 1) && (s_nc r =? 1) then
+    Some (match head_data l, head_data r with
+          | Some a, Some b => cmul (if scalar_is_ket then cconj a else a) b
+          | _, _ => c0 end)
+  else if s_nr l =? 1 then
+    Some (fold_left (fun out p => match ket_at (s_rows r) (fst p) with
+                                  | Some b => cadd out (cmul (snd p) b) | None => out end)
+                    (concat (s_rows l)) c0)
+  else
+    Some (fold_left (fun out row => match ket_at (s_rows l) row, ket_at (s_rows r) row with
+                                    | Some a, Some b => cadd out (cmul (cconj a) b)
+                                    | _, _ => out end)
+                    (seq 0 (s_nr l)) c0).
+
+(* inner.pyx::inner_op_csr *)
+Definition inner_op_csr (l op r : csr) (scalar_is_ket : bool) : option C :=
+  let left_shape := (s_nr l =? 1) || (s_nc l =? 1) in
+  let left_op := ((s_nr l =? 1) && (s_nc l =? s_nr op)) || ((s_nc l =? 1) && (s_nr l =? s_nr op)) in
+  if negb (left_shape && left_op && (s_nc op =? s_nr r) && (s_nc r =? 1)) then None
+  else if (s_nc l =? 1) && (s_nr l =? 1) && (s_nr op =? 1) && (s_nc op =? 1) && (s_nc r =? 1) then
+    Some (match head_data l, head_data op, head_data r with
+          | Some a, Some o, Some b => cmul (cmul (if scalar_is_ket then cconj a else a) o) b
+          | _, _, _ => c0 end)
+  else if s_nr l =? 1 then
+    Some (fold_left (fun out p =>
+             cadd out (cmul (snd p) (rowdot (s_rows r) (nth (fst p) (s_rows op) []))))
+           (concat (s_rows l)) c0)
+  else
+    Some (fold_left (fun out row => match ket_at (s_rows l) row with
+             | Some a => cadd out (cmul (cconj a) (rowdot (s_rows r) (nth row (s_rows op) [])))
+             | None => out end)
+           (seq 0 (s_nr op)) c0).
+
+(* expect.pyx::expect_csr: ket or density matrix *)
+Definition expect_csr (op st : csr) : option C :=
+  if s_nc st =? 1 then
+    if negb (s_nc op =? s_nr st) || negb (s_nr op =? s_nc op) then None
+    else Some (fold_left (fun out row => match ket_at (s_rows st) row with
+                 | Some a => cadd out (cmul (cconj a) (rowdot (s_rows st) (nth row (s_rows op) [])))
+                 | None => out end) (seq 0 (s_nr st)) c0)
+  else
+    if negb (s_nc op =? s_nr st) || negb (s_nr st =? s_nc st) || negb (s_nr op =? s_nc op)
+    then None
+    else Some (fold_left (fun out row =>
+                 fold_left (fun out' p =>
+                   match find (fun q => fst q =? row) (nth (fst p) (s_rows st) []) with
+                   | Some q => cadd out' (cmul (snd p) (snd q)) | None => out' end)
+                   (nth row (s_rows op) []) out)
+               (seq 0 (s_nr op)) c0).
+
+(* expect.pyx::expect_super_csr: rows 0, n+1, 2(n+1), ... with n = floor(sqrt N) *)
+Definition expect_super_csr (op st : csr) : option C :=
+  if negb (s_nc st =? 1) || negb (s_nc op =? s_nr st) || negb (s_nr op =? s_nc op) then None
+  else let n := Nat.sqrt (s_nr st) in
+    Some (fold_left (fun out t => cadd out (rowdot (s_rows st) (nth (t * (n + 1)) (s_rows op) [])))
+                    (seq 0 n) c0).
+
+(* the routes the Data / Dense / Dia specialisations take:
+   expect_data(op, ket)      = inner(ket, op @ ket)            (no scalar_is_ket)
+   inner_op_*(l, op, r, flg) = inner(l, op @ r, flg)                            *)
+Definition expect_via_inner (op st : csr) : option C :=
+  match matmul_csr op st c1 with
+  | Some v => inner_csr st v false
+  | None => None
+  end.
+Definition inner_op_via_product (l op r : csr) (flag : bool) : option C :=
+  match matmul_csr op r c1 with
+  | Some v => inner_csr l v flag
+  | None => None
+  end.
+
 (* ---------------------------------------------------------------- kron *)
 (* kron.pyx::kron_csr: output row row_l*nrows_r + row_r holds, for every
    entry of the left row (in storage order), the whole right row shifted to
@@ -387,6 +474,29 @@ Definition csr_from_dia (a : dia) : csr :=
                then [(Z.to_nat col, nth (Z.to_nat col) (snd d) c0)] else [])
              (a_diags a)))))
         (seq 0 (a_nr a)) |}.
+
+(* dia.pyx::from_csr: the set of offsets col - row of all stored entries
+   (explicit zeros included), sorted; every stored entry is written at
+   data[index of its offset, col] in storage order (the last write wins) *)
+Fixpoint zinsert (x : Z) (l : list Z) : list Z :=
+  match l with
+  | [] => [x]
+  | y :: t => if (x <? y)%Z then x :: l else if (x =? y)%Z then l else y :: zinsert x t
+  end.
+Fixpoint csr_offsets (r : nat) (rows : list crow) : list Z :=
+  match rows with
+  | [] => []
+  | row :: t => map (fun p => (Z.of_nat (fst p) - Z.of_nat r)%Z) row ++ csr_offsets (S r) t
+  end.
+Definition dia_from_csr (m : csr) : dia :=
+  {| a_nr := s_nr m; a_nc := s_nc m;
+     a_diags := map (fun off =>
+        (off, map (fun col =>
+            let r := (Z.of_nat col - off)%Z in
+            if (0 <=? r)%Z && (r <? Z.of_nat (s_nr m))%Z
+            then row_get_last col (nth (Z.to_nat r) (s_rows m) []) else c0)
+          (seq 0 (s_nc m))))
+        (fold_right zinsert [] (csr_offsets 0 (s_rows m))) |}.
 
 (* ---- predicates and tidy-up ------------------------------------------- *)
 (* properties.pyx::isequal_dia after clean_dia (1930127): walk of the two
@@ -579,6 +689,13 @@ Definition G_trace_csr := trace_csr G g0 gadd.
 Definition G_trace_dense := trace_dense G g0 gadd.
 Definition G_add_csr := add_csr G g1 gadd gmul gis0 geqb (gtidy 1).
 Definition G_kron_csr := kron_csr G gmul.
+Definition G_dia_from_csr := dia_from_csr G g0.
+Definition G_inner_csr := inner_csr G g0 gadd gmul gconj.
+Definition G_inner_op_csr := inner_op_csr G g0 gadd gmul gconj.
+Definition G_expect_csr := expect_csr G g0 gadd gmul gconj.
+Definition G_expect_super_csr := expect_super_csr G g0 gadd gmul.
+Definition G_expect_via_inner := expect_via_inner G g0 g1 gadd gmul gconj gis0 (gtidy 1).
+Definition G_inner_op_via_product := inner_op_via_product G g0 g1 gadd gmul gconj gis0 (gtidy 1).
 Definition G_matmul_csr := matmul_csr G gadd gmul gis0 (gtidy 1).
 Definition G_matmul_csr_dense := matmul_csr_dense G g0 gadd gmul.
 Definition G_reshape_csr := reshape_csr G.
